@@ -529,7 +529,7 @@ func init() {
 	register(&Check{
 		ID: "C08", Level: "exploration", MinNontriv: 3,
 		Anchors: []string{"pkg/adaptation/adaptation.go"},
-		Rule:    "rounds with 1-8 creator goroutines (BlockPluginSync; add to store; CreateContainer; Unblock, sometimes twice) and 2-6 stub plugins registering at seeded moments while creation runs, hook yields of 0-2 ms at the three synchronisation points in every other round; offline exactly-once oracle over snapshot ids and creation ids against the runtime's own store incl. a fence creation, online monitor of blocks held vs synchronisations in progress (both directions), bounded completion of pending registrations; every fifth round with 100 (one round: 190) ballast containers of 50 KiB under one pod so that snapshots are split in two (three) messages, plugin 0 there losing its first connection inside the second snapshot message and registering again with the same stub; one scenario per child with a sync block taken before Start and held across a registration and a creation; distinct = distinct (snapshot size bucket, event count bucket) splits observed per registration",
+		Rule:    "rounds with 1-8 creator goroutines (BlockPluginSync; add to store; CreateContainer; Unblock, sometimes twice) and 2-6 stub plugins registering at seeded moments while creation runs, hook yields of 0-2 ms at the three synchronisation points in every other round; offline exactly-once oracle over snapshot ids and creation ids against the runtime's own store incl. a fence creation, online monitor of blocks held vs synchronisations in progress (both directions), bounded completion of pending registrations; every fifth round with 100 (one round: 190) ballast containers of 50 KiB under one pod so that snapshots are split in two (three) messages, plugin 0 there losing its first connection inside the second snapshot message and registering again with the same stub; one scenario per child with a sync block taken before Start and held across a registration and a creation; bounded-progress monitor between the hooks sync.request and sync.exclusive (all-blocks-released moments while a registration waits; alarm above 200); distinct = distinct (snapshot size bucket, event count bucket) splits observed per registration",
 		Assumptions: []string{
 			"the runtime performs each creation together with its bookkeeping inside one plugin-sync block, as the documented contract requires",
 			"request/registration timeouts are set to 60 s so that a loaded machine cannot make a healthy plugin look dead",
